@@ -407,7 +407,7 @@ impl Complement for AdjacencyList {
     ///
     /// The time complexity is `O(v²)`, where `v` is the digraph's order.
     fn complement(&self) -> Self {
-        #[cfg(graaf_verif)] use crate::verif_rt::{available_parallelism, spawn};
+        #[cfg(graaf_verif)] #[allow(unused_imports, clippy::wildcard_imports)] use crate::verif_rt::shadow::*;
         let order = self.order();
         let full = (0..order).collect::<Vec<_>>();
         let full_ptr = full.as_ptr();
@@ -510,7 +510,7 @@ impl Complete for AdjacencyList {
     ///
     /// Panics if `order` is zero.
     fn complete(order: usize) -> Self {
-        #[cfg(graaf_verif)] use crate::verif_rt::{available_parallelism, spawn};
+        #[cfg(graaf_verif)] #[allow(unused_imports, clippy::wildcard_imports)] use crate::verif_rt::shadow::*;
         assert!(order > 0, "a digraph has at least one vertex");
 
         if order == 1 {
@@ -631,7 +631,7 @@ impl DegreeSequence for AdjacencyList {
     /// the digraph's order and `p` is the number of available threads. For
     /// dense digraphs, the time complexity is `O(v² log v / p)`.
     fn degree_sequence(&self) -> impl Iterator<Item = usize> {
-        #[cfg(graaf_verif)] use crate::verif_rt::{available_parallelism, scope};
+        #[cfg(graaf_verif)] #[allow(unused_imports, clippy::wildcard_imports)] use crate::verif_rt::shadow::*;
         let order = self.order();
         let t = available_parallelism().map_or(1, NonZero::get);
         let chunk_size = order.div_ceil(t);
@@ -953,7 +953,7 @@ impl IsSemicomplete for AdjacencyList {
     ///
     /// The time complexity is `O(v²)`, where `v` is the digraph's order.
     fn is_semicomplete(&self) -> bool {
-        #[cfg(graaf_verif)] use crate::verif_rt::{available_parallelism, scope, AtomicBool};
+        #[cfg(graaf_verif)] #[allow(unused_imports, clippy::wildcard_imports)] use crate::verif_rt::shadow::*;
         let order = self.order();
 
         if order == 1 {
@@ -1283,7 +1283,7 @@ impl Union for AdjacencyList {
     /// the order of `self`, `v2` is the order of `other`, and `U` is the
     /// number of arcs in the union of `self` and `other`.
     fn union(&self, other: &Self) -> Self {
-        #[cfg(graaf_verif)] use crate::verif_rt::{available_parallelism, scope};
+        #[cfg(graaf_verif)] #[allow(unused_imports, clippy::wildcard_imports)] use crate::verif_rt::shadow::*;
         let order = self.order().max(other.order());
         let mut arcs: Vec<BTreeSet<usize>> = vec![BTreeSet::new(); order];
         let self_ptr_usize = self.arcs.as_ptr() as usize;
